@@ -324,3 +324,125 @@ func (c *Ctx) checkCallbackErrors() {
 	}
 	r.Floor("R9.10", n, 1)
 }
+
+// checkDecoderLoopRuns implements R9.11: a decoder's loop runs while input remains. For every decoder loop whose header
+// tests len(buffer) against 0, the loop body (where the tag is consumed) is on the edge where the length is not zero.
+// An inverted test makes the decoder skip every field of a non-empty message and accept it as an empty one.
+func (c *Ctx) checkDecoderLoopRuns(decs []*decoder) {
+	r := c.R
+	r.Rule("R9.11", "a decoder loop runs while input remains: when the loop header compares len(buffer) with 0, the tag-consuming body lies on the edge where the length is non-zero")
+	n := 0
+	for _, d := range decs {
+		if d.header == nil || d.tag == nil {
+			continue
+		}
+		iff := core.BlockIf(d.header)
+		if iff == nil || len(d.header.Succs) != 2 {
+			continue
+		}
+		bo, ok := iff.Cond.(*ssa.BinOp)
+		if !ok {
+			continue
+		}
+		if _, isLen := lenOf(bo.X); !isLen {
+			continue
+		}
+		k, isK := core.ConstInt(bo.Y)
+		if !isK || k != 0 {
+			continue
+		}
+		n++
+		key := "data." + d.fn.Name() + "/loop-runs-while-input"
+		bodyIdx := -1
+		for i, s := range d.header.Succs {
+			if s == d.tag.Block() || s.Dominates(d.tag.Block()) {
+				bodyIdx = i
+			}
+		}
+		good := false
+		switch bo.Op {
+		case token.NEQ, token.GTR:
+			good = bodyIdx == 0
+		case token.EQL, token.LEQ:
+			good = bodyIdx == 1
+		}
+		r.Check(good, "R9.11", key, c.P.Pos(bo.Pos()), "the loop body runs while len(buffer) != 0", "the loop body runs when the buffer is empty and is skipped when it is not: every field of a non-empty message is ignored")
+	}
+	r.Floor("R9.11", n, 2)
+}
+
+// checkPackedRunConsumed implements R9.12: the helper that decodes a packed run succeeds exactly when nothing is left over:
+// in a function of package data that consumes varints in a counted loop from a []byte parameter, every nil-error return is
+// dominated by the edge on which len(rest) is zero.
+func (c *Ctx) checkPackedRunConsumed() {
+	r := c.R
+	r.Rule("R9.12", "a packed run is consumed completely: the counted varint-consuming helper returns a nil error only on the edge where the remaining buffer is empty (len == 0), so trailing or truncated bytes are rejected and a complete run is accepted")
+	n := 0
+	for _, fn := range c.P.RepoFuncs {
+		rel, ok := c.P.PkgOf(fn)
+		if !ok || rel != "data" || !c.P.HandWritten(fn) || len(fn.Blocks) == 0 {
+			continue
+		}
+		errIdx := core.ErrResultIndex(fn.Signature)
+		if errIdx != 0 || fn.Signature.Results().Len() != 1 {
+			continue
+		}
+		// a counted loop (integer counter phi compared with a bound) that consumes varints, no tag consumption
+		consumes, hasTag, counted := false, false, false
+		for _, ci := range core.CallsIn(fn) {
+			if call, ok := ci.(*ssa.Call); ok {
+				if pwName(call) == "ConsumeVarint" && core.InCycle(call.Block()) {
+					consumes = true
+				}
+				if pwName(call) == "ConsumeTag" {
+					hasTag = true
+				}
+			}
+		}
+		for _, b := range fn.Blocks {
+			if iff := core.BlockIf(b); iff != nil {
+				if bo, ok := iff.Cond.(*ssa.BinOp); ok && bo.Op == token.LSS {
+					if phi, ok := core.Unconv(bo.X).(*ssa.Phi); ok && phi.Block() == b && isCounterFromNonNeg(phi) {
+						counted = true
+					}
+				}
+			}
+		}
+		if !consumes || hasTag || !counted {
+			continue
+		}
+		n++
+		key := "data." + fn.Name() + "/run-consumed"
+		var bad []string
+		for _, ret := range core.Returns(fn) {
+			if !core.IsNilConst(core.ResolvedResults(ret)[0]) {
+				continue
+			}
+			empty := core.GuardedBy(ret.Block(), func(cond ssa.Value) (bool, bool) {
+				bo, ok := cond.(*ssa.BinOp)
+				if !ok {
+					return false, false
+				}
+				if _, isLen := lenOf(bo.X); !isLen {
+					return false, false
+				}
+				k, isK := core.ConstInt(bo.Y)
+				if !isK || k != 0 {
+					return false, false
+				}
+				switch bo.Op {
+				case token.GTR, token.NEQ: // len > 0, len != 0: empty on the false edge
+					return false, true
+				case token.EQL, token.LEQ: // len == 0, len <= 0: empty on the true edge
+					return true, true
+				}
+				return false, false
+			})
+			if !empty {
+				bad = append(bad, fmt.Sprintf("the nil return at %s is not confined to an empty remainder", c.P.Pos(ret.Pos())))
+			}
+		}
+		r.Check(len(bad) == 0, "R9.12", key, c.P.Pos(fn.Pos()), "succeeds exactly when the run is consumed to the last byte", uniqJoin(bad))
+	}
+	r.Floor("R9.12", n, 1)
+}
